@@ -64,3 +64,32 @@ Proof. repeat constructor. Qed.
 Lemma ex_order : NoDup [2; 0; 1] /\ Forall (fun s => present s ex_runs) [2; 0; 1] /\
   Forall2 (fun s t => nth_error ex_tops s = Some t) [2; 0; 1] [topD; topA; topC].
 Proof. split; [repeat constructor; simpl; intuition congruence|split; [exact ex_present|repeat constructor]]. Qed.
+
+(* the same file described by the molecules it was assembled from *)
+From GM Require Import Proofs.SystemRecFile Proofs.SystemRecFileExact.
+
+Definition ex_frs : list frun := [FInst 1 1; FInst 2 2; FOther rW; FInst 0 0].
+
+Lemma ex_file_of : file_of ex_tops ex_frs = ex_file.
+Proof. reflexivity. Qed.
+
+Lemma ex_file_domain : file_domain ex_tops ex_frs.
+Proof.
+  constructor.
+  - intros [|[|[|s]]] t H; simpl in H; try (destruct s; discriminate); inversion H; subst; try discriminate.
+  - intros [|[|[|s]]] H; simpl in H; try lia; eexists; simpl; eauto.
+  - intros s m H. simpl in H. repeat (destruct H as [H|H]; [inversion H; subst; simpl; lia|]). contradiction.
+  - intros [|[|[|s]]] [|[|[|t]]] k Hne; unfold tres; simpl; try (destruct s); try (destruct t); simpl;
+      intuition (try lia; try (subst; discriminate); try congruence).
+  - intros r H s Hin. simpl in H.
+    assert (r = rW) by (repeat (destruct H as [H|H]; [try discriminate; inversion H; reflexivity|]); contradiction).
+    subst r. destruct s as [|[|[|s]]]; unfold tres in Hin; simpl in Hin; try (destruct s; simpl in Hin);
+      intuition discriminate.
+  - apply key_inj_check. reflexivity.
+  - simpl. intuition congruence.
+Qed.
+
+Example ex_fexpected :
+  by_species [2; 0; 1] (fexpected ex_tops (index_of [2; 0; 1]) ex_frs 0) =
+  [(1, 0, 3); (1, 3, 6); (2, 6, 8); (2, 8, 10); (2, 10, 12); (0, 13, 14)].
+Proof. reflexivity. Qed.
